@@ -60,8 +60,20 @@ def run(ctx):
         with lock:
             return orig(name)
     ctx.subdir = subdir
-    import os
-    bg = Bg((lambda *a: None) if os.environ.get('C15_DEV') else mc, ctx, T)
+    bg = Bg(mc, ctx, T)
+    try:
+        return pipeline(ctx, T, bg, orig)
+    except BaseException:
+        # do not leave background TLC / go test processes behind
+        import subprocess
+        subprocess.run(["pkill", "-f", ctx.scratch], stderr=subprocess.DEVNULL)
+        raise
+    finally:
+        ctx.subdir = orig
+
+
+def pipeline(ctx, T, bg, orig):
+    import json, re
     # behaviours for replay
     beh = []
     for cfg in ("Gen_A", "Gen_B"):
@@ -114,7 +126,6 @@ def run(ctx):
                           ("invariant %s violated" % inv) if inv else "event rejected", hw, bad),
                       {"run": lines[start:(hw or 1) + 2][-120:], "tlc": tr.out[-2500:]})
     bg.join()
-    ctx.subdir = orig
     return ctx.finish(
         level="model_checking",
         rule="TLC: every interleaving of the model's processes within MC_*.cfg (3 states with a silent one, 2 peers, 1 duplicate, "
